@@ -230,7 +230,11 @@ func (r *Report) Set(key string, v any) {
 	r.mu.Unlock()
 }
 
-func (r *Report) Assume(s string) { r.mu.Lock(); r.assumptions = append(r.assumptions, s); r.mu.Unlock() }
+func (r *Report) Assume(s string) {
+	r.mu.Lock()
+	r.assumptions = append(r.assumptions, s)
+	r.mu.Unlock()
+}
 
 // Violation records a refuting observation. signature classifies the witness (it is
 // what known_findings.json matches on), replay is written to a file of its own.
